@@ -242,7 +242,7 @@ pub fn run_cases<T: Case>(
     let config = Config {
         cases: cfg.cases,
         failure_persistence: None,
-        max_shrink_iters: 400,
+        max_shrink_iters: 4000,
         ..Config::default()
     };
     let mut runner = TestRunner::new_with_rng(config, TestRng::from_seed(RngAlgorithm::ChaCha, &seed_bytes));
